@@ -21,8 +21,8 @@ Proof. unfold cell_sliced. destruct o, o'; cbn; tauto. Qed.
 (* the register an operation derives its result from, for the operations that build a trajectory out of others *)
 Definition structural_source (o : op) : option nat :=
   match o with
-  | OSlice r _ _ | OJoin r _ _ | OStack r _ | OAtomSlice r _ _ | ORemoveSolvent r _ => Some r
-  | OMdJoin (r :: _) => Some r
+  | OSlice r _ _ | OJoin r _ _ _ | OStack r _ | OAtomSlice r _ _ | ORemoveSolvent r _ => Some r
+  | OMdJoin (r :: _) _ => Some r
   | _ => None
   end.
 
@@ -39,7 +39,7 @@ Lemma structural_have_cell v w o w' r t :
     have_cell t' = have_cell t /\
     match o with
     | OSlice _ _ _ | OStack _ _ => is_some (ul t') = is_some (ul t) /\ is_some (ua t') = is_some (ua t)
-    | OJoin _ _ _ | OMdJoin _ => complete_or_none t' = true
+    | OJoin _ _ _ _ | OMdJoin _ _ => complete_or_none t' = true
     | _ => if is_inplace o then ul t' = ul t /\ ua t' = ua t else complete_or_none t' = true
     end.
 Proof.
@@ -48,17 +48,18 @@ Proof.
     destruct (slice_ok _ _ _ _ _ _ _ Hwf Hr H) as [t' [xi [xs [_ [Ht [_ [_ [_ [Cl [Ca _]]]]]]]]]].
     exists t'. apply cell_sliced_presence in Cl. apply cell_sliced_presence in Ca.
     split; [exact Ht|]. rewrite !have_cell_is_some, Cl, Ca. auto.
-  - inversion Hs; subst r0. unfold do_join in H. rewrite Hr in H.
-    destruct (get_all w others) as [os|]; [|discriminate].
-    destruct (join_trajs_ok _ _ _ _ _ Hwf H) as [t' [Ht [_ [_ [_ [Hc _]]]]]].
+  - inversion Hs; subst r0. fold (step v w (OJoin r others check_top dis)) in H.
+    destruct (join_step_full _ _ _ _ _ _ _ H) as [t0 [os [t' [plan [Hr0 [_ JF]]]]]].
+    rewrite Hr in Hr0. inversion Hr0; subst t0. destruct JF as [_ [Ht [_ [_ [_ [Hc _]]]]]].
     exists t'. split; [exact Ht|]. unfold complete_or_none. rewrite have_cell_is_some.
     destruct (have_cell t) eqn:E.
     + destruct Hc as [l [a [-> [-> _]]]]. cbn. auto.
     + destruct Hc as [-> ->]. cbn. auto.
   - destruct rs as [|r1 rest]; [discriminate|]. inversion Hs; subst r1.
-    unfold do_mdjoin in H. cbn [get_all] in H. rewrite Hr in H.
-    destruct (get_all w rest) as [[|o os]|]; try discriminate.
-    destruct (join_trajs_ok _ _ _ _ _ Hwf H) as [t' [Ht [_ [_ [_ [Hc _]]]]]].
+    fold (step v w (OMdJoin (r :: rest) dis)) in H.
+    destruct (mdjoin_step_full _ _ _ _ _ H) as [t0 [o [os [t' [plan [Hg JF]]]]]].
+    cbn [get_all] in Hg. rewrite Hr in Hg. destruct (get_all w rest) as [gr|]; [|discriminate]. injection Hg as E1 E2. subst t0. clear E2 gr.
+    destruct JF as [_ [Ht [_ [_ [_ [Hc _]]]]]].
     exists t'. split; [exact Ht|]. unfold complete_or_none. rewrite have_cell_is_some.
     destruct (have_cell t) eqn:E.
     + destruct Hc as [l [a [-> [-> _]]]]. cbn. auto.
@@ -91,13 +92,13 @@ Proof.
 Qed.
 
 (* join refuses to mix trajectories with and without a (complete) cell *)
-Lemma join_operands_agree v w r others ct w' t os :
+Lemma join_operands_agree v w r others ct dis w' t os :
   wf w -> nth_error (trajs w) r = Some t -> get_all w others = Some os ->
-  step v w (OJoin r others ct) = (w', ROk) ->
+  step v w (OJoin r others ct dis) = (w', ROk) ->
   forallb (fun o => Bool.eqb (have_cell t) (have_cell o)) os = true.
 Proof.
-  intros Hwf Hr Ho H. cbn [step] in H. unfold do_join in H. rewrite Hr, Ho in H.
-  destruct (join_trajs_ok _ _ _ _ _ Hwf H) as [t' Hall]. tauto.
+  intros Hwf Hr Ho H. destruct (join_step_full _ _ _ _ _ _ _ H) as [t0 [os0 [t' [plan [Hr0 [Ho0 JF]]]]]].
+  rewrite Hr in Hr0. rewrite Ho in Ho0. inversion Hr0; inversion Ho0; subst. unfold join_facts in JF. tauto.
 Qed.
 
 (* ---- half-set cells arise only from assigning one part alone *)
@@ -274,7 +275,7 @@ Lemma half_set_witnesses :
   (* a slice and a stack keep the half-set cell, a join and an atom subset lose it entirely *)
   (let w := fst (run v_fix (init_world specs_cell)
                   [OSetAngles 0 None; OSlice 0 (KSlice (Some 1%Z) None None) true; OStack 0 1; OSetAngles 1 None;
-                   OJoin 0 [0] true; OAtomSlice 0 [0%Z] false]) in
+                   OJoin 0 [0] true false; OAtomSlice 0 [0%Z] false]) in
    reg_state w 2 = Some (true, false) /\ reg_state w 3 = Some (true, false) /\
    reg_state w 4 = Some (false, false) /\ reg_state w 5 = Some (false, false)).
 Proof. vm_compute. repeat split; reflexivity. Qed.
